@@ -59,7 +59,7 @@ def slice_keep(tier: str):
                     and m.get("set") in ("pq", "p_notq", "q_cond", "assign", "p_agg", "qq_neq", "interval_join", "rec"))
         if fam == "C11":
             return (m["p"] == "choice" and m["extra"] in ("none", "cond_pos_A")
-                    and m["ctx"] in ("constraint", "ruleG", "agg", "weak"))
+                    and m["ctx"] in ("constraint", "ruleG", "agg", "weak", "weakprio"))
         if fam == "C12":
             return (m["q"] in ("choice", "choice_base") and m["fun"] == "max"
                     and m["user"] in ("none", "sum", "min", "min_guard", "weak_realguard", "min_second", "body_use", "min_twin", "weak_twin"))
